@@ -8,6 +8,8 @@ def run(res, work, tier, seed):
     vlib.stage_specs(work)
     model(res, work, tier)
     vlib.run_core_family(res, work, "c01", tier, seed, parts=12 if tier == "quick" else 14, clauses=CLAUSES)
+    from props import corestep
+    corestep.run(res, work, tier, seed, "C01")   # step-level replay of the st-c01 scenarios through TallyCore.tla (drift, not a verdict)
     res.rule = ("executions of the real counter / report-pass code under the controlled scheduler: exhaustive DFS over the thread choices at the atomic steps of "
                 "the delta computation (load prev, load curr, CAS, reporter call) for {2 increments} || pass || pass, plain and cached reporter, plain ints and "
                 "2^61-scaled values (int64 wrap-around), histogram bucket counters; seeded random schedules over all hook points for the mixed scenario "
